@@ -31,7 +31,7 @@ for pid in ALL:
     })
 man = {
     'version': 1,
-    'setup_cmd': 'cd lean && python3 ../harness/translate.py && lake build VotelibModel VotelibProofs VotelibAudit vldriver',
+    'setup_cmd': './check --setup',
     'hooks': {'guard': 'VOTELIB_VERIF', 'enable': 'no source hooks: instrumentation is applied from the harness process (monkey-patching); the guard variable is unused by the source',
               'baseline_off_cmd': 'cd /repo && /venv/bin/python -m pytest -ra -q -p no:cacheprovider --timeout=900 --continue-on-collection-errors',
               'source_commits': fix_commits, 'add_only': True},
